@@ -265,6 +265,19 @@ def r3(ctx):
     ctx.count("state_writers", n)
 
 
+def _positive_timeout(ev, expr, allowed_timers):
+    """the timer argument is a positive time computed from the configured timeouts (and nothing else):
+    it evaluates to a positive number whenever the timeouts are positive, for two different settings"""
+    try:
+        vals = []
+        for scale in (1, 7):
+            env = {k: 1000 * scale * (i + 1) for i, k in enumerate(sorted(allowed_timers))}
+            vals.append(ev.value(expr, env))
+    except (NotConst, TypeError):
+        return False
+    return all(isinstance(v, (int, float)) and not isinstance(v, bool) and v > 0 for v in vals) and vals[0] != vals[1]
+
+
 @rule("C04.R4", "every waiting state is entered with a timeout and is dispatched by the timeout and event dispatchers",
       floor=14, engines="E1 paths + E5")
 def r4(ctx):
@@ -294,14 +307,14 @@ def r4(ctx):
                     continue
                 waiting.add(s)
                 targ = call.args[1] if len(call.args) > 1 else next((k.value for k in call.keywords if k.arg == "timer"), None)
-                ok = targ is not None and norm(targ) in allowed_timers
+                ok = targ is not None and _positive_timeout(ev, targ, allowed_timers)
                 ctx.check("%s.%s:set_state(%s)" % (cname, name, inv.get(s)), ok, where(c.module, call),
                           "waiting state %s entered without one of the configured timeouts (found %s): the transaction could wait for ever"
                           % (inv.get(s), norm(targ) if targ is not None else "no timer"))
             for call in calls_in(f):
                 if self_call(call) in ("start_timer", "restart_timer") and name not in ("set_state", "start_timer", "restart_timer"):
-                    ok = len(call.args) == 1 and norm(call.args[0]) in allowed_timers
-                    ctx.check("%s.%s:%s" % (cname, name, self_call(call)), ok, where(c.module, call), "timer restarted with something other than a configured timeout")
+                    ok = len(call.args) == 1 and _positive_timeout(ev, call.args[0], allowed_timers)
+                    ctx.check("%s.%s:%s" % (cname, name, self_call(call)), ok, where(c.module, call), "timer restarted with something that is not a positive time derived from the configured timeouts")
         for d in dispatchers:
             f = c.methods.get(d)
             if f is None:
